@@ -15,6 +15,7 @@ CONSTANTS
   MaxObst = 0
   MaxEncFail = 0
   MaxOverlap = 0
+  PreArch <- NoPreArch
   Gz = FALSE
   BufFloor = 99
   Hist = FALSE
